@@ -152,13 +152,12 @@ func (n *Node) StepFullSend(e interface{}) (out Out) {
 		}()
 		n.P.VerifDispatch(n.W.Ctx, e)
 	}()
-	buf := make([]byte, 1<<20)
 	for finished := false; !finished; {
 		select {
 		case <-done:
 			finished = true
 		default:
-			st := string(buf[:runtime.Stack(buf, true)])
+			st := allStacks()
 			if i := strings.Index(st, "handleCleanup"); i >= 0 && strings.Contains(st, "[chan send") {
 				// parked waiting for room: make room (drop the fillers), the handler goes on
 				for k := 0; k < nf; k++ {
@@ -193,6 +192,19 @@ func (n *Node) StepFullSend(e interface{}) (out Out) {
 	return out
 }
 
+// allStacks returns the complete goroutine dump (the buffer grows until the dump fits: a truncated dump can hide
+// exactly the goroutine that is looked for).
+var stackBuf = make([]byte, 1<<20)
+
+func allStacks() string {
+	n := runtime.Stack(stackBuf, true)
+	for n == len(stackBuf) {
+		stackBuf = make([]byte, 2*len(stackBuf))
+		n = runtime.Stack(stackBuf, true)
+	}
+	return string(stackBuf[:n])
+}
+
 // StepFullObsv performs a local observation (or an injection) while the node's inbound observation queue is full - a
 // burst of gossip. The node's own signature travels to its aggregation through that very queue: it has to arrive
 // once there is room. Goroutine states decide (no clock): the sender of the loopback is either parked in a channel
@@ -214,9 +226,8 @@ func (n *Node) StepFullObsv(e interface{}) (out Out) {
 		n.P.VerifDispatch(n.W.Ctx, e)
 	}()
 	n.drain(&out)
-	buf := make([]byte, 1<<20)
 	senders := func() (parked, other int) {
-		for _, g := range strings.Split(string(buf[:runtime.Stack(buf, true)]), "\n\n") {
+		for _, g := range strings.Split(allStacks(), "\n\n") {
 			if !strings.Contains(g, ").broadcastSignature.func") {
 				continue
 			}
@@ -375,8 +386,7 @@ func (n *Node) StepFullQueue(e interface{}) (out Out) {
 	select {
 	case <-done:
 	case <-time.After(3 * time.Second):
-		buf := make([]byte, 1<<20)
-		st := string(buf[:runtime.Stack(buf, true)])
+		st := allStacks()
 		if strings.Contains(st, "handleCleanup") && strings.Contains(st, "chan send") {
 			out.Blocked = true
 			// release the handler so that the worker can go on
@@ -418,7 +428,6 @@ func (n *Node) Step(e interface{}) (out Out) {
 	// loopback goroutine; wait for it so that executions are deterministic.
 	switch e.(type) {
 	case *common.MessagePublication, processor.VerifInject:
-		buf := []byte(nil)
 		for i := 0; i < len(out.Obs); i++ {
 			got := false
 			for spin := 0; !got; spin++ {
@@ -434,10 +443,7 @@ func (n *Node) Step(e interface{}) (out Out) {
 					continue
 				}
 				// not there yet: is anybody still going to send it? (goroutine states, no clock)
-				if buf == nil {
-					buf = make([]byte, 1<<20)
-				}
-				if !strings.Contains(string(buf[:runtime.Stack(buf, true)]), ").broadcastSignature.func") {
+				if !strings.Contains(allStacks(), ").broadcastSignature.func") {
 					// no sender left: whatever it sent is in the queue by now (it may have finished between the
 					// receive attempt above and the inspection)
 					select {
